@@ -16,6 +16,7 @@ import (
 	"gitlab.com/yawning/obfs4.git/internal/zzverif/mc"
 	"gitlab.com/yawning/obfs4.git/internal/zzverif/ref"
 	"gitlab.com/yawning/obfs4.git/internal/zzverif/rnd"
+	"gitlab.com/yawning/obfs4.git/internal/zzverif/sched"
 )
 
 func fail(c *mc.Ctx, oracle, key, format string, a ...any) {
@@ -101,6 +102,16 @@ func distScenario(sname string, seed []byte, b bounds, biased bool, other []byte
 		}
 		// histories: a distribution is a pure function of (seed, bounds, bias)
 		w3 := probdist.New(mkSeed(other), b.min, b.max, biased)
+		// ... and does not depend on which other distributions exist: creating or
+		// re-seeding another one leaves the first two as they were
+		if !tablesEqual(c, "New(seed) after another distribution was created with another seed", w1, d) || !tablesEqual(c, "second New(seed) after another distribution was created", w2, d) {
+			return
+		}
+		w4 := probdist.New(mkSeed(seed), b.min, b.max, biased)
+		w4.Reset(mkSeed(other))
+		if !tablesEqual(c, "New(seed) after another distribution was re-seeded", w1, d) {
+			return
+		}
 		w3.Reset(mkSeed(seed))
 		if !tablesEqual(c, "New(other).Reset(seed)", w3, d) {
 			return
@@ -293,6 +304,61 @@ func drbgHistories(sname string, seed []byte, depth int) mc.Scenario {
 	}}
 }
 
+// sampleVsReset: a distribution shared by a sampling thread and a re-seeding
+// thread (an obfs4 connection's writer and reader): whatever the interleaving,
+// a sample is a value of the old or of the new table.
+func sampleVsReset(name string, seedA, seedB []byte, b bounds, biased bool, bound int) mc.Scenario {
+	return mc.Scenario{Name: "sample-vs-reset/" + name, Bound: bound, Weight: 100, Run: func(c *mc.Ctx) {
+		rnd.Install(rnd.New(1, "c12-svr-"+name))
+		dA, dB := ref.NewDist(seedA, b.min, b.max, biased), ref.NewDist(seedB, b.min, b.max, biased)
+		ok := map[int]bool{}
+		for _, v := range dA.Abs() {
+			ok[v] = true
+		}
+		for _, v := range dB.Abs() {
+			ok[v] = true
+		}
+		w := probdist.New(mkSeed(seedA), b.min, b.max, biased)
+		var samples []int
+		res := sched.Run(c, sched.Options{PreemptKinds: []string{"stmt", "lock", "unlock"}, MaxSteps: 1_000_000}, func() {
+			s := sched.Cur()
+			done := 0
+			s.Spawn("sampler", func() {
+				for i := 0; i < 3; i++ {
+					samples = append(samples, w.Sample())
+				}
+				done++
+			})
+			s.Spawn("reseeder", func() {
+				w.Reset(mkSeed(seedB))
+				done++
+			})
+			s.Point("join", func() bool { return done == 2 })
+		})
+		if len(res.Panics) > 0 {
+			fail(c, "sample", "sample-vs-reset/panic", "Sample concurrent with Reset (table sizes %d -> %d): %s", len(dA.Values), len(dB.Values), res.Panics[0])
+			return
+		}
+		for _, v := range samples {
+			if !ok[v] || v < b.min || v > b.max {
+				fail(c, "sample", "sample-vs-reset/not-in-table", "Sample concurrent with Reset returned %d, which is in neither the old nor the new table", v)
+				return
+			}
+		}
+		after := w.Sample()
+		inB := false
+		for _, v := range dB.Abs() {
+			if v == after {
+				inB = true
+			}
+		}
+		if !inB {
+			fail(c, "sample", "sample-vs-reset/after", "after Reset completed, Sample returned %d, not a value of the new table", after)
+		}
+		c.Observe("samples", fmt.Sprint(samples))
+	}}
+}
+
 func mustDrbg(seed []byte) *drbg.HashDrbg {
 	g, err := drbg.NewHashDrbg(mkSeed(seed))
 	if err != nil {
@@ -437,5 +503,12 @@ func main() {
 			emit(drbgHistories(sn, s, d))
 		}
 		emit(helperScenario())
+		// big table -> one-value table and back, both bias settings
+		if s1, s100 := seeds["size1"], seeds["size100"]; s1 != nil && s100 != nil {
+			for _, biased := range []bool{false, true} {
+				emit(sampleVsReset(fmt.Sprintf("100-to-1/bias=%v", biased), s100, s1, allBounds[0], biased, 2))
+				emit(sampleVsReset(fmt.Sprintf("1-to-100/bias=%v", biased), s1, s100, allBounds[0], biased, 2))
+			}
+		}
 	})
 }
